@@ -14,6 +14,8 @@ pub fn build(family: &str, rng: &mut Rng, index: u64) -> Option<Plan> {
 		"F4" => Some(f4(rng, index)),
 		// issuance swarm: standard hooks (C01/C04/C05/C13) and generated hook tables (C10)
 		"F1" => Some(super::f1::build(rng, &super::f1::F1Opts { max_certs: 3, max_ids: 8, generated_hooks: false, hard_hook_failures: false, owners: true, eab: true, allow_rsa4096: index % 97 == 0 })),
+		"F7" => Some(f7(rng, index)),
+		"F5" => Some(f5(rng, index)),
 		"F1w" => Some(f1w(rng, index)),
 		"F1h" => Some(super::f1::build(rng, &super::f1::F1Opts { max_certs: 1 + (index % 2), max_ids: 4, generated_hooks: true, hard_hook_failures: index % 3 == 0, owners: false, eab: false, allow_rsa4096: false })),
 		"F3" => Some(f3(rng, index)),
@@ -457,5 +459,108 @@ fn f1w(rng: &mut Rng, index: u64) -> Plan {
 		ca.knobs.wildcard_any = wild_ch != "dns-01" || rng.chance(1, 2);
 		ca.knobs.authz_status = vec![];
 	}
+	p
+}
+
+/// F7: limiter swarm: 1..6 certificates and 1..3 accounts on ONE endpoint with 1..3 limits
+/// (n in 1..20, periods 1 s..10 s plus minute/hour periods), bursts after idle (short lifetimes =>
+/// renewals), retry storms from scripted recoverable errors.
+fn f7(rng: &mut Rng, _index: u64) -> Plan {
+	let n = rng.range(1, 6) as usize;
+	let mut p = simple_plan(rng, n);
+	let n_acc = rng.range(1, 3) as usize;
+	p.config.accounts = (0..n_acc).map(|a| account(&format!("acc{}", a), CHEAP_KEY_TYPES[rng.below(5) as usize])).collect();
+	for c in p.config.certificates.iter_mut() {
+		c.account = format!("acc{}", rng.below(n_acc as u64));
+	}
+	let n_lim = rng.range(1, 3);
+	let mut names = vec![];
+	for i in 0..n_lim {
+		let (number, period) = match rng.below(8) {
+			0 => (rng.range(20, 120), "1m".to_string()),
+			1 => (rng.range(100, 400), "1h".to_string()),
+			2 => (rng.range(1, 3), "1s".to_string()),
+			_ => (rng.range(1, 20), format!("{}s", rng.range(1, 10))),
+		};
+		p.config.rate_limits.push(RateLimitCfg { name: format!("rl{}", i), number, period });
+		names.push(format!("rl{}", i));
+	}
+	p.config.endpoints[0].rate_limits = names;
+	let k = &mut p.cas[0].knobs;
+	k.nonce_on_get = rng.chance(1, 2);
+	k.polls_authz = rng.below(3) as u32;
+	k.polls_valid = rng.below(3) as u32;
+	k.bad_nonce_every = [0u64, 0, 2, 5][rng.below(4) as usize];
+	let renewals = rng.chance(1, 2);
+	if renewals {
+		k.lifetime_s = vec![3600];
+	}
+	if rng.chance(1, 3) {
+		// a retry storm: a run of recoverable errors somewhere
+		let kinds = ["badNonce", "rateLimited", "serverInternal", "connection"];
+		p.faults.push(Fault {
+			site: "net".into(),
+			ca: 0,
+			class: ["newOrder", "authz", "challenge", "finalize", "authzPoll"][rng.below(5) as usize].into(),
+			nth: rng.range(1, 3),
+			count: rng.range(1, 9),
+			kind: FaultKind::Acme { typ: kinds[rng.below(4) as usize].into(), status: 400, detail: Some("retry storm".into()) },
+			..Default::default()
+		});
+	}
+	p.sched.net_us = (100, [200u64, 5_000, 80_000][rng.below(3) as usize]);
+	p.ops = vec![Op::Run { attempts: if renewals { rng.range(2, 3) as u32 } else { 1 }, max_virtual_s: 400_000, only: vec![] }];
+	if !p.faults.is_empty() {
+		// a storm may exhaust the 10 transmissions of one request: give the attempt(s) room to be redone
+		p.ops.push(Op::Run { attempts: 3, max_virtual_s: 400_000, only: vec![] });
+	}
+	p.sched.max_events = 400_000;
+	p
+}
+
+/// F5: concurrency: 2..8 certificates over 1..3 accounts and 1..3 endpoints in every sharing
+/// pattern; latency / tie-break / zero-yield / lock-fairness swarm; first registration raced;
+/// CA-forgotten accounts and pending contact/key changes (the paths that take the write locks).
+fn f5(rng: &mut Rng, _index: u64) -> Plan {
+	let n = rng.range(2, 8) as usize;
+	let mut p = simple_plan(rng, n);
+	let n_acc = rng.range(1, 3) as usize;
+	let n_ep = rng.range(1, 3) as usize;
+	p.config.accounts = (0..n_acc).map(|a| account(&format!("acc{}", a), CHEAP_KEY_TYPES[rng.below(5) as usize])).collect();
+	p.config.endpoints = (0..n_ep).map(|e| EndpointCfg { name: format!("ep{}", e), ca: e, rate_limits: vec![], tos_agreed: true }).collect();
+	p.cas = (0..n_ep).map(|e| CaCfg { host: format!("ca{}.sim", e), knobs: super::f1::ca_knobs(rng, &["http-01".to_string(), "dns-01".to_string(), "tls-alpn-01".to_string()]) }).collect();
+	for ca in p.cas.iter_mut() {
+		ca.knobs.offer = vec!["http-01".into(), "dns-01".into(), "tls-alpn-01".into()];
+		ca.knobs.nonce_ttl_s = None;
+		ca.knobs.lifetime_s = vec![3600];
+	}
+	for c in p.config.certificates.iter_mut() {
+		c.account = format!("acc{}", rng.below(n_acc as u64));
+		c.endpoint = format!("ep{}", rng.below(n_ep as u64));
+	}
+	p.sched.net_us = (100, [150u64, 2_000, 80_000, 1_000_000][rng.below(4) as usize]);
+	let mut ops = vec![Op::Run { attempts: 1, max_virtual_s: 50_000, only: vec![] }];
+	for _ in 0..rng.below(3) {
+		match rng.below(4) {
+			0 => {
+				ops.push(Op::CaForget { ca: rng.below(n_ep as u64) as usize, account: format!("acc{}", rng.below(n_acc as u64)) });
+				ops.push(Op::Run { attempts: 2, max_virtual_s: 50_000, only: vec![] });
+			}
+			1 => {
+				ops.push(Op::Stop);
+				let a = format!("acc{}", rng.below(n_acc as u64));
+				ops.push(Op::Edit { patch: vec![EditItem::Contacts { account: a, contacts: vec![format!("new{}@example.org", rng.below(100))] }] });
+				ops.push(Op::Run { attempts: 1, max_virtual_s: 50_000, only: vec![] });
+			}
+			2 => {
+				ops.push(Op::Stop);
+				let a = format!("acc{}", rng.below(n_acc as u64));
+				ops.push(Op::Edit { patch: vec![EditItem::KeyType { account: a, key_type: CHEAP_KEY_TYPES[rng.below(5) as usize].to_string() }] });
+				ops.push(Op::Run { attempts: 1, max_virtual_s: 50_000, only: vec![] });
+			}
+			_ => ops.push(Op::Run { attempts: 1, max_virtual_s: 50_000, only: vec![] }),
+		}
+	}
+	p.ops = ops;
 	p
 }
